@@ -1,6 +1,7 @@
 import FlVerif.Op.Settings
 import FlVerif.Gen.Tables
 import FlVerif.Lemmas.CodeSettings
+import FlVerif.Lemmas.CodeWave5XSet
 
 /-! # C20 — Temporary settings are always restored
 
@@ -29,6 +30,55 @@ theorem code_context (kwargs : List (Key × Option Val)) (s s' : Store) :
             key := σ.key, value := σ.value, store := lift s' } = .ok τ ∧
         τ.store = lift (restore s' s (contextSettings kwargs)) :=
   Op.Settings.code_context kwargs s s'
+
+/-! ### the constructor and the lazy factory manager (fifth wave)
+
+`Gen.Code.Settings_init`, `Settings_factory_manager_get` / `_set` are regenerated from `Settings.__init__` and the property
+`Settings.factory_manager` of `library.py`.  An object is the map from attribute index to value, where - unlike in the
+stores of `Op.Settings.run` - a value may be `None`: the field `_factory_manager` is `None` until the first access. -/
+
+/-- **Tie A (code → model).**  `Settings.__init__` stores its seven arguments in the seven attributes (`init`): as they
+    are given - also a `None` factory manager -, except that a `None` logger becomes the logger of the library. -/
+theorem code_settingsInit (s0 args : OStore) (defaultLogger : Val) :
+    ∃ σ, Gen.Code.Settings_init.run args defaultLogger s0 {} = .ok σ ∧ σ.store = init s0 args defaultLogger :=
+  Op.Settings.code_settingsInit s0 args defaultLogger
+
+/-- **Tie A (code → model).**  The getter of `settings.factory_manager` = `getManager`; the setter stores its argument.
+    Hence: the first access of an object whose field is `None` creates the manager `fresh` and stores it
+    (`getManager_first`), and every later access returns that same object and leaves the object as it is, whatever a
+    new `FactoryManager()` would be (`getManager_again`). -/
+theorem code_factoryManager (s : OStore) (fresh fresh' : Val) (v : Option Val) :
+    (∃ σ, Gen.Code.Settings_factory_manager_get.run s fresh {} = .ok σ ∧
+      σ.ret = some (some (getManager fresh s).1) ∧ σ.store = (getManager fresh s).2) ∧
+    (∃ σ, Gen.Code.Settings_factory_manager_set.run s v {} = .ok σ ∧ σ.store = Py.Settings.setattr s fmKey v) ∧
+    (s fmKey = none → getManager fresh s = (fresh, Py.Settings.setattr s fmKey (some fresh))) ∧
+    getManager fresh' (getManager fresh s).2 = ((getManager fresh s).1, (getManager fresh s).2) :=
+  ⟨Op.Settings.code_factoryManager s fresh, Op.Settings.code_setFactoryManager s v,
+   Op.Settings.getManager_first fresh s, Op.Settings.getManager_again fresh fresh' s⟩
+
+/-- **Tie A, `Settings.context` on any object.**  `code_context` above is stated for the stores of the model, where no
+    attribute is `None`.  On an object whose attributes may be `None` the regenerated `enter` assigns the arguments that
+    are not `None`, in order, and the regenerated `finally` block assigns to the same attributes what they held at entry. -/
+theorem code_context_optional (kwargs : List (Nat × Option Nat)) (s s' : OStore) :
+    ∃ σ, Gen.Code.Settings_context_enter.run kwargs s {} = .ok σ ∧
+      σ.store = (namedO kwargs).foldl (fun t p => Py.Settings.setattr t p.1 p.2) s ∧
+      ∃ τ, Gen.Code.Settings_context_exit.run
+          { context_settings := σ.context_settings, rollback_settings := σ.rollback_settings,
+            key := σ.key, value := σ.value, store := s' } = .ok τ ∧
+        τ.store = (namedO kwargs).foldl (fun t p => Py.Settings.setattr t p.1 (s p.1)) s' :=
+  Op.Settings.code_contextO kwargs s s'
+
+/-- **A context that sets `factory_manager`** (the last keyword parameter; `pre` = the arguments before it) replaces the
+    field while the body of the `with` block runs and **restores the previous FIELD on exit** - not the previous manager:
+    when the manager had not been created at entry (`s fmKey = none`) the field is `None` again afterwards, and the next
+    access creates a new manager (`code_factoryManager`). -/
+theorem context_factoryManager (pre : List (Nat × Option Nat)) (m : Val) (s s' : OStore) :
+    ∃ σ, Gen.Code.Settings_context_enter.run (pre ++ [(fmKey, some m)]) s {} = .ok σ ∧ σ.store fmKey = some m ∧
+      ∃ τ, Gen.Code.Settings_context_exit.run
+          { context_settings := σ.context_settings, rollback_settings := σ.rollback_settings,
+            key := σ.key, value := σ.value, store := s' } = .ok τ ∧
+        τ.store fmKey = s fmKey :=
+  Op.Settings.context_factoryManager pre m s s'
 
 theorem namedB_iff (kvs : List (Key × Val)) (k : Key) : namedB kvs k = true ↔ named kvs k := by
   unfold namedB named
